@@ -281,6 +281,22 @@ func c11run(c *Ctx, idx int, log *mon.Log, w mon.W, alpha []modeCall, steps []c1
 		slog.SetLevelColors(slog.WarnLevel, color.FgYellow, color.NoColor)
 	}
 	c11handlers = map[*slog.Entry]stdslog.Handler{}
+	if idx%7 == 3 {
+		// a handle of the process's default logger is kept while the application installs ANOTHER logger (of another
+		// format) as the default: the kept logger got no mode call, its format is what it was
+		old := slog.Default()
+		oj, oc := old.JSONMode(), old.ColorMode()
+		other := slog.New("another-default")
+		other.SetJSONMode(!oj)
+		slog.SetDefault(other)
+		nj, nc := old.JSONMode(), old.ColorMode()
+		slog.SetDefault(old)
+		c.R.Add("kept_handles_of_the_default_logger_checked_across_SetDefault", 1)
+		if nj != oj || nc != oc {
+			c.R.Violation(idx, "getters", "C11/getters/kept-default-handle", fmt.Sprintf("a logger obtained from Default() reported JSONMode=%v ColorMode=%v; after SetDefault(another logger) - no mode call on it - it reports JSONMode=%v ColorMode=%v", oj, oc, nj, nc), nil)
+			return false
+		}
+	}
 	root := newRoot("root", FColor, w, slog.AlwaysLevel)
 	start := FColor
 	if idx%5 == 2 {
@@ -318,7 +334,7 @@ func c11run(c *Ctx, idx int, log *mon.Log, w mon.W, alpha []modeCall, steps []c1
 		if c11clash != "" {
 			why := c11clash
 			c11clash = ""
-			c.R.Violation(idx, "record-shape", "C11/record-shape/file-destination", fmt.Sprintf("after %v: %s", hist, why), map[string]any{"sequence": hist})
+			c.R.Violation(idx, "record-shape", "C11/observed-inside-a-call/"+strings.ReplaceAll(mc.name, " ", "_"), fmt.Sprintf("after %v: %s", hist, why), map[string]any{"sequence": hist})
 			return false
 		}
 		known := false
